@@ -9,6 +9,7 @@
   C18.4  zero-record file: the reader guards the empty frame (shared with C07.G2)
   C18.7  the record parser converts ids, coordinates and lengths by plain truncation: int(<column value>) (through
          float() or math.trunc at most), never round()/ceil()/+0.5; confidence, orientation and HitEnum are passed on as read
+  C18.8  every read parses the file it is given (no remembered table: readFile returns read_csv(file, ...) on every path)
 Declined: value round-trip as a whole (two decimals of the confidence, coordinate lookup values).
 """
 from __future__ import annotations
@@ -79,9 +80,23 @@ def run(ck):
 
     # ------------------------------------------------------------------ C18.2 framing
     file_reader = p.find_method("BionanoFileReader", "readFile")
-    rp = [pa for pa in explore(ck, file_reader) if pa.outcome == "return"]
-    if len(rp) != 1:
-        raise AnalysisError(f"{file_reader.where}: readFile expected to be a single return")
+    rp_all = [pa for pa in explore(ck, file_reader) if pa.outcome == "return"]
+    ck.clause("C18.8", "every read parses the file it is given: readFile returns pandas.read_csv(file, ...) on every path")
+    rp = []
+    file_param = V(file_reader.call_params()[0].name)
+    for pa in rp_all:
+        calls = [x for x in T.subterms(pa.value) if x[0] == "call" and x[1].endswith("read_csv")]
+        if calls and calls[0][2] and calls[0][2][0] == file_param:
+            rp.append(pa)
+        else:
+            ck.violation("C18.8", "BionanoFileReader.readFile:remembered-table", where(file_reader, pa.node),
+                         "a path of readFile returns something other than the parse of the file it was given (a remembered table): "
+                         "a file that COMA has rewritten since is read back as its earlier content",
+                         found=f"return {T.show(pa.value)[:140]}", required="pandas.read_csv(file, ...)")
+    if not rp:
+        raise AnalysisError(f"{file_reader.where}: no path of readFile returns pandas.read_csv(file, ...)")
+    if len(rp) == len(rp_all):
+        ck.ok("C18.8", "BionanoFileReader.readFile", file_reader.where, f"{len(rp)} return path(s), each the parse of the given file")
     rc = None
     for x in T.subterms(rp[0].value):
         if x[0] == "call" and x[1].endswith("read_csv"):
